@@ -165,6 +165,9 @@ def as_iter(v):
         v = v.load()
     if isinstance(v, IterV):
         return v
+    if isinstance(v, EnumV) and v.variant() is not None and len(v.payload.get(v.variant(), [])) == 1 \
+            and isinstance(v.payload[v.variant()][0], IterV):
+        return v.payload[v.variant()][0]      # Either::Left(iter) / Either::Right(iter)
     if isinstance(v, Agg) and v.ty == 'RangeInclusive':
         lo, hi = v.fields[0].concrete(), v.fields[1].concrete()
         if lo is None or hi is None:
@@ -227,7 +230,7 @@ def dispatch(engine, st, callee, args, dest_ty):
         if tyb in ('RouteState', 'SolutionState', 'Dimensions'):
             return state_accessor(engine, st, tyb, tb, method, args, dest_ty)
         # user trait impl
-        fns = engine.prog.find_method(tyb, method, trait=tb)
+        fns = engine.prog.find_method(tyb, method, trait=tb, is_ref=ty.strip().startswith('&'))
         if len(fns) == 1:
             return engine.exec_fn(st, fns[0], args)
         if not fns:
@@ -362,7 +365,12 @@ def std_trait(engine, st, ty, tyb, tb, method, args, dest_ty, trait=None):
     if tb in ('Index', 'IndexMut') and method in ('index', 'index_mut') and isinstance(args[1], Agg):
         s = seq_of(args[0])
         rng = args[1]
-        lo, hi = rng.fields[0].concrete(), rng.fields[1].concrete()
+        if rng.ty.endswith('RangeFrom'):
+            lo, hi = rng.fields[0].concrete(), seq_len(s)
+        elif rng.ty.endswith('RangeTo'):
+            lo, hi = 0, rng.fields[0].concrete()
+        else:
+            lo, hi = rng.fields[0].concrete(), rng.fields[1].concrete()
         if lo is None or hi is None:
             raise Inconclusive('slicing with symbolic bounds')
         if rng.ty == 'RangeInclusive':
@@ -425,7 +433,11 @@ def std_trait(engine, st, ty, tyb, tb, method, args, dest_ty, trait=None):
         # provided methods of PartialOrd on a user type: defined through its partial_cmp
         fns = engine.prog.find_method(tyb, 'partial_cmp', trait='PartialOrd')
         if len(fns) == 1:
-            o = engine.exec_fn(st, fns[0], [args[0], args[1]])
+            a0, a1 = args[0], args[1]
+            if ty.strip().startswith('&'):
+                # `impl PartialOrd<&B> for &A` forwards to the impl of the referents
+                a0, a1 = a0.load(), a1.load()
+            o = engine.exec_fn(st, fns[0], [a0, a1])
             if isinstance(o, EnumV) and o.payload.get(1):
                 d = o.payload[1][0].discr
                 some = o.discr == 1
@@ -463,6 +475,9 @@ def iterator_method(engine, st, method, args, dest_ty):
         return IterV(list(reversed(it.items)))
     if method == 'enumerate':
         return IterV([Agg('tuple', [IV(i), x]) for i, x in enumerate(it.items)])
+    if method == 'zip' and isinstance(args[1], Agg) and args[1].ty.endswith('RangeFrom'):
+        lo = args[1].fields[0].concrete()
+        return IterV([Agg('tuple', [a, IV(lo + i)]) for i, a in enumerate(it.items)])
     if method == 'zip':
         other = iterator_method(engine, st, 'into_iter', [args[1]], '')
         return IterV([Agg('tuple', [a, b]) for a, b in zip(it.items, other.items)])
@@ -474,6 +489,12 @@ def iterator_method(engine, st, method, args, dest_ty):
     if method in ('count', 'len'):
         return IV(len(it.items))
     if method == 'collect':
+        tb_ = base_type(dest_ty) if dest_ty else 'Vec'
+        if tb_ not in ('Vec', 'TinyVec', ''):
+            fns = engine.prog.find_method(tb_, 'from_iter', trait='FromIterator')
+            if len(fns) == 1:
+                return engine.exec_fn(st, fns[0], [it])
+            raise Inconclusive(f'collect into {dest_ty}')
         return VecV(list(it.items))
     if method == 'map':
         return IterV([engine.call_closure(st, args[1], [x]) for x in it.items])
@@ -827,6 +848,9 @@ def seq_method(engine, st, method, args, dest_ty):
         n = args[1].concrete()
         items = s.items if isinstance(s, VecV) else s.fields
         return IterV([RefV(Cell(VecV([items[j] for j in range(i, i + n)])), 0) for i in range(0, len(items) - n + 1)])
+    if method == 'to_vec':
+        items = s.items if isinstance(s, VecV) else s.fields
+        return VecV([copy_value(x) for x in items])
     if method == 'clear':
         s.items.clear()
         return UnitV()
